@@ -5,11 +5,67 @@ namespace SqlObjVerif.Conc
 
 @[simp] theorem aget_nil (i : Id) : aget [] i = none := rfl
 
+/-! ## liveness of weakly referenced objects -/
+/-- a thread or the environment references the object -/
+def Held (s : State) (o : Obj) : Prop := o ∈ s.refs ∨ o ∈ s.pins
+
+theorem aliveIn_iff (refs pins : List Obj) (m : AMap) (o : Obj) :
+    aliveIn refs pins m o = true ↔ o ∈ refs ∨ o ∈ pins ∨ o ∈ avals m := by
+  simp [aliveIn, or_assoc]
+
+theorem alive_iff (s : State) (o : Obj) : alive s o = true ↔ o ∈ s.refs ∨ o ∈ s.pins ∨ o ∈ avals s.strong :=
+  aliveIn_iff _ _ _ _
+
+theorem mem_avals_of_aget (m : AMap) (i : Id) (o : Obj) (h : aget m i = some o) : o ∈ avals m := by
+  induction m with
+  | nil => simp at h
+  | cons p m ih =>
+    obtain ⟨k, v⟩ := p
+    simp only [aget] at h
+    split at h
+    · simp at h; simp [avals, h]
+    · have := ih h; simp only [avals, List.map_cons, List.mem_cons] at this ⊢; exact Or.inr this
+
+theorem mem_avals_aset (m : AMap) (i : Id) (o v : Obj) (h : v ∈ avals (aset m i o)) : v = o ∨ v ∈ avals m := by
+  induction m with
+  | nil => simp [aset, avals] at h; exact Or.inl h
+  | cons p m ih =>
+    obtain ⟨k, w⟩ := p
+    simp only [aset] at h
+    split at h
+    · simp only [avals, List.map_cons, List.mem_cons] at h ⊢
+      rcases h with h | h
+      · exact Or.inl h
+      · exact Or.inr (Or.inr h)
+    · simp only [avals, List.map_cons, List.mem_cons] at h ⊢ ih
+      rcases h with h | h
+      · exact Or.inr (Or.inl h)
+      · rcases ih h with h | h
+        · exact Or.inl h
+        · exact Or.inr (Or.inr h)
+
+theorem mem_avals_adel (m : AMap) (i : Id) (v : Obj) (h : v ∈ avals (adel m i)) : v ∈ avals m := by
+  induction m with
+  | nil => simp [adel, avals] at h
+  | cons p m ih =>
+    obtain ⟨k, w⟩ := p
+    simp only [adel] at h
+    split at h
+    · simp only [avals, List.map_cons, List.mem_cons] at ⊢ ih; exact Or.inr (ih h)
+    · simp only [avals, List.map_cons, List.mem_cons] at h ⊢ ih
+      rcases h with h | h
+      · exact Or.inl h
+      · exact Or.inr (ih h)
+
+theorem mem_avals_aset_self (m : AMap) (i : Id) (o : Obj) : o ∈ avals (aset m i o) :=
+  mem_avals_of_aget _ i o (by rw [aget_aset]; simp)
+
 /-- the thread is inside a `create`, before or after its lock-free `cache[id] = obj` -/
 def pcCreate : Pc → Bool
   | .insert _ | .crSet _ _ | .crSelect _ _ => true
   | .csGet k | .csSet k | .ccTest k | .ccRead k | .ccWrite k _ | .ccReset k | .cuAcq k | .cuWeakKeys k
-  | .cuWeakChk k _ | .cuStrongKeys k | .cuStrongGet k _ _ | .cuStrongDel k _ _ _ | .cuWeakSet k _ _ _ | .cuRel k =>
+  | .cuWeakChk k _ | .cuStrongKeys k | .cuStrongGet k _ _ | .cuStrongDel k _ _ _ | .cuWeakSet k _ _ _ | .cuRel k
+  | .cuWeakPop k _ _ _ =>
     match k with
     | .create _ _ => true
     | _ => false
@@ -40,7 +96,7 @@ def livePc : Pc → Option (Id × Obj)
 
 /-- the row id a lock holder has probed and relies on being absent from `cache` -/
 def gid : Pc → Option Id
-  | .weakGet i | .weakDel i _ | .select i | .finRelNF i | .put i _ => some i
+  | .weakGet i | .weakDel i _ | .weakDelDead i _ | .select i | .finRelNF i | .put i _ => some i
   | _ => none
 
 /-- the thread is inside the copy loop of `expireAll` (relies on `len(cache)` staying put) -/
@@ -60,6 +116,8 @@ def CrOK (s : State) (t : Tid) : Prop :=
 def know (s : State) : Pc → Prop
   | .weakGet i => aget s.strong i = none
   | .weakDel i o => aget s.strong i = none ∧ aget s.weak i = some o
+  | .weakDelDead i o => aget s.strong i = none ∧ aget s.weak i = some o ∧ alive s o = false
+  | .cuWeakPop _ key o _ => aget s.weak key = some o ∧ alive s o = false
   | .select i | .finRelNF i | .put i _ => aget s.strong i = none ∧ aget s.weak i = none
   | .cuStrongDel _ i o _ => aget s.strong i = some o
   | .eaNext pos used => s.strong.length = used ∧
@@ -70,6 +128,18 @@ def know (s : State) : Pc → Prop
   | .eaSwap => ∀ k v, aget s.strong k = some v → aget s.weak k = some v
   | _ => True
 
+/-- instances the thread holds a strong reference to at this pc (locals `val`, `obj`, `self`) -/
+def pcRefs : Pc → List Obj
+  | .relRel _ o | .weakDel _ o | .strongSet _ o | .relSet _ o | .put _ o | .finRel _ o | .crSet _ o
+  | .crSelect _ o => [o]
+  | .csGet k | .csSet k | .ccTest k | .ccRead k | .ccWrite k _ | .ccReset k | .cuAcq k | .cuWeakKeys k
+  | .cuWeakChk k _ | .cuStrongKeys k | .cuStrongGet k _ _ | .cuStrongDel k _ _ _ | .cuWeakSet k _ _ _ | .cuRel k
+  | .cuWeakPop k _ _ _ =>
+    match k with
+    | .create _ o => [o]
+    | _ => []
+  | _ => []
+
 structure BInv (s : State) : Prop where
   uniq : ∀ i o p, aget s.strong i = some o → aget s.weak i = some p → o = p
   tr1 : ∀ i o, s.transit = some (i, o) →
@@ -78,6 +148,8 @@ structure BInv (s : State) : Prop where
   know : ∀ t, know s (s.th t).pc
   live : ∀ t i o, livePc (s.th t).pc = some (i, o) → Reach s i o
   outs : ∀ t i o, Out.obj i o ∈ (s.th t).outs → Reach s i o
+  refsPc : ∀ t, ∀ o ∈ pcRefs (s.th t).pc, o ∈ s.refs
+  refsOuts : ∀ t i o, Out.obj i o ∈ (s.th t).outs → o ∈ s.refs
 
 theorem getElem_aget (m : AMap) (hk : (akeys m).Nodup) (j : Nat) (k : Id) (v : Obj) (h : m[j]? = some (k, v)) :
     aget m k = some v := by
@@ -174,6 +246,13 @@ theorem nonholder_effect2 (s s' : State) (t : Tid) (hs : step s t = some s') (hh
     (s'.strong = s.strong ∨ ∃ i o, (s.th t).pc = .crSet i o ∧ s'.strong = aset s.strong i o) := by
   step_cases <;> simp only [hpc, holds] at hh <;> simp_all <;> exact Or.inr ⟨_, _, ⟨rfl, rfl⟩, rfl⟩
 
+/-- … and to `refs` it only adds an instance that is in `cache`, or a brand new one -/
+theorem nonholder_refs (s s' : State) (t : Tid) (hs : step s t = some s') (hh : holds (s.th t).pc = false) :
+    s'.pins = s.pins ∧ ∀ o, o ∈ s'.refs → o ∈ s.refs ∨ o ∈ avals s.strong ∨ o = s.fresh := by
+  step_cases <;> simp only [hpc, holds] at hh <;> simp <;>
+    (try (intro o ho; rcases ho with ho | ho)) <;> simp_all <;>
+    first | exact Or.inr (Or.inl (mem_avals_of_aget _ _ _ ‹_›)) | skip
+
 theorem crok_of_nocreate (s : State) (t : Tid) (hn : NoCreate s) : CrOK s t := by
   have h := (hn t).1
   constructor
@@ -196,11 +275,50 @@ theorem livePc_afterCC (s : State) (t : Tid) (k : K) : livePc ((afterCC s t k).t
 theorem livePc_afterCaches (s : State) (t : Tid) (k : K) : livePc ((afterCaches s t k).th t).pc = none := by
   cases k <;> simp only [afterCaches, goto_pc_self] <;> rfl
 
-/-- a lock-free `cache[i] = o` of an id nobody has probed, outside any iteration, keeps what lock holders know -/
-theorem know_aset (s s' : State) (pc : Pc) (i : Id) (o : Obj) (e1 : s'.strong = aset s.strong i o)
-    (e2 : s'.weak = s.weak) (h0 : aget s.strong i = none) (hg : gid pc ≠ some i) (he : pcEAk pc = false)
+/-- what a lock holder knows survives the lock-free steps of the other threads: `expiredCache` untouched,
+    `cache` at most extended at an id nobody has probed (outside any iteration) by an instance its creator
+    holds, `refs` extended only by an instance that is in `cache` or brand new -/
+theorem know_stable (s s' : State) (pc : Pc) (hw : s'.weak = s.weak) (hp : s'.pins = s.pins)
+    (hst : s'.strong = s.strong ∨ ∃ i o, s'.strong = aset s.strong i o ∧ aget s.strong i = none ∧
+      gid pc ≠ some i ∧ pcEAk pc = false ∧ o ∈ s.refs)
+    (hrefs : ∀ o, o ∈ s'.refs → o ∈ s.refs ∨ o ∈ avals s.strong ∨ o = s.fresh)
+    (hwb : ∀ o ∈ avals s.weak, o < s.fresh)
     (h : know s pc) : know s' pc := by
-  cases pc <;> simp_all [know, gid, pcEAk, aget_aset] <;> grind
+  have hal : ∀ (k : Id) (o : Obj), aget s.weak k = some o → alive s o = false → alive s' o = false := by
+    intro k o hwk hd
+    have hlt := hwb o (mem_avals_of_aget _ _ _ hwk)
+    cases hx : alive s' o with
+    | false => rfl
+    | true =>
+      exfalso
+      have hd' : ¬ (o ∈ s.refs ∨ o ∈ s.pins ∨ o ∈ avals s.strong) := by
+        intro h'; rw [← alive_iff] at h'; simp [hd] at h'
+      rw [alive_iff, hp] at hx
+      rcases hx with hx | hx | hx
+      · rcases hrefs o hx with h1 | h1 | h1
+        · exact hd' (Or.inl h1)
+        · exact hd' (Or.inr (Or.inr h1))
+        · rw [h1] at hlt; exact Nat.lt_irrefl _ hlt
+      · exact hd' (Or.inr (Or.inl hx))
+      · rcases hst with e | ⟨i, o', e, _, _, _, ho'⟩
+        · rw [e] at hx; exact hd' (Or.inr (Or.inr hx))
+        · rw [e] at hx
+          rcases mem_avals_aset _ _ _ _ hx with h1 | h1
+          · exact hd' (Or.inl (h1 ▸ ho'))
+          · exact hd' (Or.inr (Or.inr h1))
+  rcases hst with e | ⟨i, o', e, h0, hg, he, _⟩
+  · cases pc <;> simp only [know, hw, e] at h ⊢ <;>
+      first
+      | exact h
+      | exact ⟨h.1, h.2.1, hal _ _ h.2.1 h.2.2⟩
+      | exact ⟨h.1, hal _ _ h.1 h.2⟩
+  · cases pc <;> simp only [know, hw, e, gid, pcEAk] at h hg he ⊢ <;>
+      first
+      | exact h
+      | (simp_all [aget_aset]; done)
+      | (have := hal _ _ h.2.1 h.2.2; simp_all [aget_aset]; grind)
+      | (have := hal _ _ h.1 h.2; simp_all [aget_aset])
+      | (simp_all [aget_aset]; grind)
 
 theorem know_nonholds (s : State) (pc : Pc) (h : holds pc = false) : know s pc := by
   cases pc <;> simp_all [know, holds]
@@ -216,8 +334,22 @@ theorem transit_none (s : State) (t : Tid) (ha : AInv s) (hb : BInv s) (hl : s.l
     have := (ha.holder t').1 (trPc_holds _ _ ht')
     simp_all
 
+theorem not_alive (s : State) (o : Obj) (h : alive s o = false) (hh : Held s o) : False := by
+  have : alive s o = true := by
+    rw [alive_iff]; rcases hh with h1 | h1
+    · exact Or.inl h1
+    · exact Or.inr (Or.inl h1)
+  simp [h] at this
+
+theorem not_aliveIn (refs pins : List Obj) (m : AMap) (o : Obj) (h : ¬ aliveIn refs pins m o = true)
+    (hh : o ∈ refs ∨ o ∈ pins) : False := by
+  apply h; rw [aliveIn_iff]; rcases hh with h1 | h1
+  · exact Or.inl h1
+  · exact Or.inr (Or.inl h1)
+
+/-- an instance somebody references stays reachable (or expired, or in transit) across every action -/
 theorem reach_step (s s' : State) (t : Tid) (ha : AInv s) (hb : BInv s) (hn : CrOK s t)
-    (hs : step s t = some s') (i : Id) (o : Obj) (hr : Reach s i o) : Reach s' i o := by
+    (hs : step s t = some s') (i : Id) (o : Obj) (hr : Reach s i o) (hal : Held s o) : Reach s' i o := by
   cases hh : holds (s.th t).pc
   · obtain ⟨e2, e3, e4, e1⟩ := nonholder_effect2 s s' t hs hh
     unfold Reach at *; rw [e2, e3, e4]
@@ -232,13 +364,16 @@ theorem reach_step (s s' : State) (t : Tid) (ha : AInv s) (hb : BInv s) (hn : Cr
     have hu := hb.uniq
     have ht1 := hb.tr1
     have hsk := ha.skeys
+    have hna := not_alive s o
+    have hnb := not_aliveIn s.refs s.pins
+    unfold Held at hal hna
     unfold Reach at *
     step_cases <;> simp only [hpc, holds] at hh <;> (try cases hh) <;> simp only [hpc, know, trPc] at hk htn ht2 <;>
       simp <;> grind [aget_aset, aget_adel, aget_nil]
 
-theorem know_congr (s s' : State) (pc : Pc) (e1 : s'.strong = s.strong) (e2 : s'.weak = s.weak) (h : know s pc) :
-    know s' pc := by
-  cases pc <;> simp_all [know] <;> grind
+theorem held_step (s s' : State) (t : Tid) (hs : step s t = some s') (o : Obj) (h : Held s o) : Held s' o := by
+  unfold Held at *
+  step_cases <;> simp <;> grind
 
 /-! ### outcomes only grow by what the thread was about to return -/
 @[simp] theorem goto_outs_self (s : State) (t : Tid) (pc : Pc) : ((goto s t pc).th t).outs = (s.th t).outs := by
@@ -307,7 +442,8 @@ theorem binv_know_self (s s' : State) (t : Tid) (ha : AInv s) (hb : BInv s)
     | exact know_nonholds _ _ (afterCaches_holds _ _ _)
     | (simp only [goto_pc_self]; exact know_cuWeakNext _ _ _)
     | (simp only [goto_pc_self]; exact know_cuStrongNext _ _ _)
-    | (simp only [goto_pc_self, know, goto_strong, goto_weak] <;> grind [aget_aset, aget_adel, aget_nil])
+    | (simp only [goto_pc_self, know, alive, goto_strong, goto_weak, goto_refs, goto_pins] at hk ⊢ <;>
+        grind [aget_aset, aget_adel, aget_nil, alive])
 
 theorem livePc_cuWeakNext (k : K) (l : List Id) : livePc (cuWeakNext k l) = none := by cases l <;> rfl
 theorem livePc_cuStrongNext (k : K) (l : List Id) : livePc (cuStrongNext k l) = none := by cases l <;> rfl
@@ -369,14 +505,119 @@ theorem binv_tr1 (s s' : State) (t : Tid) (ha : AInv s) (hb : BInv s) (hn : CrOK
       refine ⟨?_, ?_, t, ?_⟩ <;> simp [trPc, aget_adel] <;>
       first | grind | exact opt_none_or _ _ hu _ _ hk
 
-theorem binv_step (s s' : State) (t : Tid) (ha : AInv s) (hb : BInv s) (hn : CrOK s t)
+/-! ### object identities are allocated from `fresh`: nothing in the cache is newer -/
+def kObj : K → List Obj
+  | .create _ o => [o]
+  | _ => []
+
+/-- the objects a pc carries that it will still write into a map -/
+def pcObjs : Pc → List Obj
+  | .weakDel _ o | .strongSet _ o | .put _ o | .crSet _ o | .eaSetWeak _ o _ _ => [o]
+  | .cuStrongDel k _ o _ | .cuWeakSet k _ o _ => o :: kObj k
+  | .csGet k | .csSet k | .ccTest k | .ccRead k | .ccWrite k _ | .ccReset k | .cuAcq k | .cuWeakKeys k
+  | .cuWeakChk k _ | .cuStrongKeys k | .cuStrongGet k _ _ | .cuRel k | .cuWeakPop k _ _ _ => kObj k
+  | _ => []
+
+structure FInv (s : State) : Prop where
+  sb : ∀ o ∈ avals s.strong, o < s.fresh
+  wb : ∀ o ∈ avals s.weak, o < s.fresh
+  pb : ∀ t, ∀ o ∈ pcObjs (s.th t).pc, o < s.fresh
+
+theorem fresh_mono (s s' : State) (t : Tid) (hs : step s t = some s') : s.fresh ≤ s'.fresh := by
+  step_cases <;> simp
+
+theorem pcObjs_entry (c : Bool) (op : Op) : pcObjs (entry c op) = [] := by
+  cases op <;> cases c <;> rfl
+theorem pcObjs_finish (s : State) (t : Tid) (o : Out) : pcObjs ((finish s t o).th t).pc = [] := by
+  unfold finish; split
+  · simp only [setTh_self]; rfl
+  · simp only [setTh_self]; exact pcObjs_entry _ _
+theorem pcObjs_releaseFinish (s : State) (t : Tid) (o : Out) : pcObjs ((releaseFinish s t o).th t).pc = [] := by
+  unfold releaseFinish; split <;> exact pcObjs_finish _ _ _
+theorem pcObjs_afterCC (s : State) (t : Tid) (k : K) : pcObjs ((afterCC s t k).th t).pc = kObj k := by
+  cases k <;> simp only [afterCC, goto_pc_self, pcObjs_finish] <;> rfl
+theorem pcObjs_afterCaches (s : State) (t : Tid) (k : K) : pcObjs ((afterCaches s t k).th t).pc = kObj k := by
+  cases k <;> simp only [afterCaches, goto_pc_self] <;> rfl
+theorem pcObjs_cuWeakNext (k : K) (l : List Id) : pcObjs (cuWeakNext k l) = kObj k := by cases l <;> rfl
+theorem pcObjs_cuStrongNext (k : K) (l : List Id) : pcObjs (cuStrongNext k l) = kObj k := by cases l <;> rfl
+
+@[simp] theorem avals_nil : avals [] = [] := rfl
+
+theorem getElem_mem_avals (m : AMap) (j : Nat) (k : Id) (v : Obj) (h : m[j]? = some (k, v)) : v ∈ avals m := by
+  have := List.mem_of_getElem? h
+  simp only [avals, List.mem_map]
+  exact ⟨(k, v), this, rfl⟩
+
+theorem finv_step (s s' : State) (t : Tid) (hf : FInv s) (hs : step s t = some s') : FInv s' := by
+  have hm := fresh_mono s s' t hs
+  have hsb := hf.sb
+  have hwb := hf.wb
+  have hpt := hf.pb t
+  have hav1 := mem_avals_aset
+  have hav2 := mem_avals_adel
+  have hav3 := mem_avals_of_aget
+  have hav4 := getElem_mem_avals s.strong
+  refine ⟨?_, ?_, ?_⟩
+  · step_cases <;> simp only [hpc, pcObjs] at hpt <;> (try simp at hpt) <;> simp <;> grind [kObj, avals_nil]
+  · step_cases <;> simp only [hpc, pcObjs] at hpt <;> (try simp at hpt) <;> simp <;> grind [kObj, avals_nil]
+  · intro u
+    by_cases hu : u = t
+    · subst hu
+      step_cases <;> simp only [hpc, pcObjs] at hpt <;> (try simp at hpt) <;>
+        simp only [goto_pc_self, pcObjs_finish, pcObjs_releaseFinish, pcObjs_afterCC, pcObjs_afterCaches,
+          pcObjs_cuWeakNext, pcObjs_cuStrongNext] <;>
+        (try simp only [pcObjs]) <;>
+        simp <;> grind [kObj, avals_nil]
+    · rw [step_th_ne s s' t u hs hu]
+      intro o ho; exact Nat.lt_of_lt_of_le (hf.pb u o ho) hm
+
+theorem livePc_pcRefs (pc : Pc) (i : Id) (o : Obj) (h : livePc pc = some (i, o)) : o ∈ pcRefs pc := by
+  cases pc <;> simp_all [livePc, pcRefs]
+
+theorem refs_mono (s s' : State) (t : Tid) (hs : step s t = some s') (o : Obj) (h : o ∈ s.refs) : o ∈ s'.refs := by
+  step_cases <;> simp <;> simp [h]
+
+theorem probe_refs (s s' : State) (t : Tid) (hs : step s t = some s') (i : Id) (o : Obj)
+    (hp : (s.th t).pc = .probe i) (hg : aget s.strong i = some o) : o ∈ s'.refs := by
+  simp only [step, hp, hg] at hs
+  injection hs with hs; subst hs; simp
+
+theorem pcRefs_entry (c : Bool) (op : Op) : pcRefs (entry c op) = [] := by
+  cases op <;> cases c <;> rfl
+theorem pcRefs_finish (s : State) (t : Tid) (o : Out) : pcRefs ((finish s t o).th t).pc = [] := by
+  unfold finish; split
+  · simp only [setTh_self]; rfl
+  · simp only [setTh_self]; exact pcRefs_entry _ _
+theorem pcRefs_releaseFinish (s : State) (t : Tid) (o : Out) : pcRefs ((releaseFinish s t o).th t).pc = [] := by
+  unfold releaseFinish; split <;> exact pcRefs_finish _ _ _
+theorem pcRefs_afterCC (s : State) (t : Tid) (k : K) : pcRefs ((afterCC s t k).th t).pc = kObj k := by
+  cases k <;> simp only [afterCC, goto_pc_self, pcRefs_finish] <;> rfl
+theorem pcRefs_afterCaches (s : State) (t : Tid) (k : K) : pcRefs ((afterCaches s t k).th t).pc = kObj k := by
+  cases k <;> simp only [afterCaches, goto_pc_self] <;> rfl
+theorem pcRefs_cuWeakNext (k : K) (l : List Id) : pcRefs (cuWeakNext k l) = kObj k := by
+  cases l <;> cases k <;> rfl
+theorem pcRefs_cuStrongNext (k : K) (l : List Id) : pcRefs (cuStrongNext k l) = kObj k := by
+  cases l <;> cases k <;> rfl
+
+theorem binv_refsPc_self (s s' : State) (t : Tid) (hb : BInv s) (hs : step s t = some s') :
+    ∀ o ∈ pcRefs (s'.th t).pc, o ∈ s'.refs := by
+  have h := hb.refsPc t
+  step_cases <;> simp only [hpc, pcRefs] at h <;> (try simp at h) <;>
+    simp only [goto_pc_self, pcRefs_finish, pcRefs_releaseFinish, pcRefs_afterCC, pcRefs_afterCaches,
+      pcRefs_cuWeakNext, pcRefs_cuStrongNext] <;>
+    (try simp only [pcRefs]) <;> simp <;> grind [kObj]
+
+theorem binv_step (s s' : State) (t : Tid) (ha : AInv s) (hb : BInv s) (hf : FInv s) (hn : CrOK s t)
     (hs : step s t = some s') : BInv s' := by
   have ht : ∀ u, holds (s.th u).pc = true → u ≠ t → holds (s.th t).pc = false := by
     intro u hu hne
     cases h : holds (s.th t).pc
     · rfl
     · have a := (ha.holder u).1 hu; have b := (ha.holder t).1 h; simp_all
-  refine ⟨binv_uniq s s' t ha hb hn hs, binv_tr1 s s' t ha hb hn hs, ?_, ?_, ?_, ?_⟩
+  have hlive : ∀ u i o, livePc (s.th u).pc = some (i, o) → Held s o := fun u i o h =>
+    Or.inl (hb.refsPc u o (livePc_pcRefs _ i o h))
+  have houts : ∀ u i o, Out.obj i o ∈ (s.th u).outs → Held s o := fun u i o h => Or.inl (hb.refsOuts u i o h)
+  refine ⟨binv_uniq s s' t ha hb hn hs, binv_tr1 s s' t ha hb hn hs, ?_, ?_, ?_, ?_, ?_, ?_⟩
   · intro u i o h
     by_cases hu : u = t
     · subst hu; exact binv_tr2_self s s' u hs i o h
@@ -389,38 +630,59 @@ theorem binv_step (s s' : State) (t : Tid) (ha : AInv s) (hb : BInv s) (hn : CrO
     · rw [step_th_ne s s' t u hs hu]
       cases hh : holds (s.th u).pc
       · exact know_nonholds _ _ hh
-      · obtain ⟨e2, _, _, e1⟩ := nonholder_effect2 s s' t hs (ht u hh hu)
+      · have hht := ht u hh hu
+        obtain ⟨e2, _, _, e1⟩ := nonholder_effect2 s s' t hs hht
+        obtain ⟨ep, er⟩ := nonholder_refs s s' t hs hht
+        refine know_stable s s' _ e2 ep ?_ er hf.wb (hb.know u)
         rcases e1 with e1 | ⟨i', o', hp, e1⟩
-        · exact know_congr s s' _ e1 e2 (hb.know u)
+        · exact Or.inl e1
         · obtain ⟨h0, _, _, hg, he⟩ := hn.1 i' o' hp
-          exact know_aset s s' _ i' o' e1 e2 h0 (hg u) (he u) (hb.know u)
+          exact Or.inr ⟨i', o', e1, h0, hg u, he u, hb.refsPc t o' (by rw [hp]; simp [pcRefs])⟩
   · intro u i o h
     by_cases hu : u = t
     · subst hu; exact binv_live_self s s' u hb hs i o h
     · rw [step_th_ne s s' t u hs hu] at h
-      exact reach_step s s' t ha hb hn hs i o (hb.live u i o h)
+      exact reach_step s s' t ha hb hn hs i o (hb.live u i o h) (hlive u i o h)
   · intro u i o h
     by_cases hu : u = t
     · subst hu
       rcases outs_effect s s' u hs i o h with h | ⟨hp, hg⟩ | h
-      · exact reach_step s s' u ha hb hn hs i o (hb.outs u i o h)
-      · exact reach_step s s' u ha hb hn hs i o (Or.inl hg)
-      · exact reach_step s s' u ha hb hn hs i o (hb.live u i o h)
+      · exact reach_step s s' u ha hb hn hs i o (hb.outs u i o h) (houts u i o h)
+      · -- probe hit: the step itself takes the reference
+        have : Reach s i o := Or.inl hg
+        simp only [step, hp, hg] at hs
+        injection hs with hs; subst hs
+        unfold Reach at *; simpa using this
+      · exact reach_step s s' u ha hb hn hs i o (hb.live u i o h) (hlive u i o h)
     · rw [step_th_ne s s' t u hs hu] at h
-      exact reach_step s s' t ha hb hn hs i o (hb.outs u i o h)
+      exact reach_step s s' t ha hb hn hs i o (hb.outs u i o h) (houts u i o h)
+  · intro u
+    by_cases hu : u = t
+    · subst hu; exact binv_refsPc_self s s' u hb hs
+    · rw [step_th_ne s s' t u hs hu]
+      intro o ho; exact refs_mono s s' t hs o (hb.refsPc u o ho)
+  · intro u i o h
+    by_cases hu : u = t
+    · subst hu
+      rcases outs_effect s s' u hs i o h with h | ⟨hp, hg⟩ | h
+      · exact refs_mono s s' u hs o (hb.refsOuts u i o h)
+      · exact probe_refs s s' u hs i o hp hg
+      · exact refs_mono s s' u hs o (hb.refsPc u o (livePc_pcRefs _ i o h))
+    · rw [step_th_ne s s' t u hs hu] at h
+      exact refs_mono s s' t hs o (hb.refsOuts u i o h)
 
-/-- all three layers along a schedule -/
-theorem inv_run (s : State) (sched : List Tid) (ha : AInv s) (hb : BInv s) (hn : NoCreate s) :
-    AInv (run s sched) ∧ BInv (run s sched) ∧ NoCreate (run s sched) := by
+/-- all layers along a schedule (programs without create) -/
+theorem inv_run (s : State) (sched : List Tid) (ha : AInv s) (hb : BInv s) (hf : FInv s) (hn : NoCreate s) :
+    AInv (run s sched) ∧ BInv (run s sched) ∧ FInv (run s sched) ∧ NoCreate (run s sched) := by
   induction sched generalizing s with
-  | nil => exact ⟨ha, hb, hn⟩
+  | nil => exact ⟨ha, hb, hf, hn⟩
   | cons t ts ih =>
     unfold run
     split
     · rename_i s' hs
-      exact ih s' (ainv_step s s' t ha hs) (binv_step s s' t ha hb (crok_of_nocreate s t hn) hs)
-        (nocreate_step s s' t hn hs)
-    · exact ih s ha hb hn
+      exact ih s' (ainv_step s s' t ha hs) (binv_step s s' t ha hb hf (crok_of_nocreate s t hn) hs)
+        (finv_step s s' t hf hs) (nocreate_step s s' t hn hs)
+    · exact ih s ha hb hf hn
 
 theorem livePc_startTh (c : Bool) (p : List Op) : livePc (startTh c p).pc = none := by
   cases p
@@ -435,11 +697,21 @@ theorem trPc_startTh (c : Bool) (p : List Op) : trPc (startTh c p).pc = none := 
 theorem outs_startTh (c : Bool) (p : List Op) : (startTh c p).outs = [] := by
   cases p <;> rfl
 
+theorem pcRefs_startTh (c : Bool) (p : List Op) : pcRefs (startTh c p).pc = [] := by
+  cases p
+  · rfl
+  · simp only [startTh]; exact pcRefs_entry _ _
+
+theorem pcObjs_startTh (c : Bool) (p : List Op) : pcObjs (startTh c p).pc = [] := by
+  cases p
+  · rfl
+  · simp only [startTh]; exact pcObjs_entry _ _
+
 theorem binv_init (caches : Bool) (strong weak : AMap) (db : List Id) (fresh freq frac cc off : Nat)
-    (progs : Tid → List Op)
+    (pins : List Obj) (progs : Tid → List Op)
     (hu : ∀ i o p, aget strong i = some o → aget weak i = some p → o = p) :
-    BInv (mkInit caches strong weak db fresh freq frac cc off progs) := by
-  refine ⟨hu, ?_, ?_, ?_, ?_, ?_⟩
+    BInv (mkInit caches strong weak db fresh freq frac cc off pins progs) := by
+  refine ⟨hu, ?_, ?_, ?_, ?_, ?_, ?_, ?_⟩
   · intro i o h; simp [mkInit] at h
   · intro t i o h
     have : trPc (startTh caches (progs t)).pc = some (i, o) := h
@@ -451,6 +723,21 @@ theorem binv_init (caches : Bool) (strong weak : AMap) (db : List Id) (fresh fre
   · intro t i o h
     have : Out.obj i o ∈ (startTh caches (progs t)).outs := h
     simp [outs_startTh] at this
+  · intro t o h
+    have : o ∈ pcRefs (startTh caches (progs t)).pc := h
+    simp [pcRefs_startTh] at this
+  · intro t i o h
+    have : Out.obj i o ∈ (startTh caches (progs t)).outs := h
+    simp [outs_startTh] at this
+
+theorem finv_init (caches : Bool) (strong weak : AMap) (db : List Id) (fresh freq frac cc off : Nat)
+    (pins : List Obj) (progs : Tid → List Op)
+    (h1 : ∀ o ∈ avals strong, o < fresh) (h2 : ∀ o ∈ avals weak, o < fresh) :
+    FInv (mkInit caches strong weak db fresh freq frac cc off pins progs) := by
+  refine ⟨h1, h2, ?_⟩
+  intro t o h
+  have : o ∈ pcObjs (startTh caches (progs t)).pc := h
+  simp [pcObjs_startTh] at this
 
 theorem pcCreate_startTh (c : Bool) (p : List Op) (h : ∀ op ∈ p, isCreate op = false) :
     thNoCreate (startTh c p) := by
@@ -461,8 +748,8 @@ theorem pcCreate_startTh (c : Bool) (p : List Op) (h : ∀ op ∈ p, isCreate op
     exact ⟨pcCreate_entry _ _ (h op (by simp)), fun op' ho => h op' (by simp [ho])⟩
 
 theorem nocreate_init (caches : Bool) (strong weak : AMap) (db : List Id) (fresh freq frac cc off : Nat)
-    (progs : Tid → List Op) (h : ∀ t, ∀ op ∈ progs t, isCreate op = false) :
-    NoCreate (mkInit caches strong weak db fresh freq frac cc off progs) :=
+    (pins : List Obj) (progs : Tid → List Op) (h : ∀ t, ∀ op ∈ progs t, isCreate op = false) :
+    NoCreate (mkInit caches strong weak db fresh freq frac cc off pins progs) :=
   fun t => pcCreate_startTh caches (progs t) (h t)
 
 /-! ### no exception but NotFound -/
@@ -499,35 +786,36 @@ theorem einv_step (s s' : State) (t : Tid) (ha : AInv s) (hb : BInv s) (hn : CrO
   · rw [step_th_ne s s' t u hs hu]; exact he u
 
 theorem einv_init (caches : Bool) (strong weak : AMap) (db : List Id) (fresh freq frac cc off : Nat)
-    (progs : Tid → List Op) : EInv (mkInit caches strong weak db fresh freq frac cc off progs) := by
+    (pins : List Obj) (progs : Tid → List Op) : EInv (mkInit caches strong weak db fresh freq frac cc off pins progs) := by
   intro t
   refine ⟨pcErr_nonholds _ (holds_startTh caches (progs t)), ?_⟩
   intro e h
   have : Out.exc e ∈ (startTh caches (progs t)).outs := h
   simp [outs_startTh] at this
 
-theorem inv_run_e (s : State) (sched : List Tid) (ha : AInv s) (hb : BInv s) (hn : NoCreate s) (he : EInv s) :
-    EInv (run s sched) := by
+theorem inv_run_e (s : State) (sched : List Tid) (ha : AInv s) (hb : BInv s) (hf : FInv s) (hn : NoCreate s)
+    (he : EInv s) : EInv (run s sched) := by
   induction sched generalizing s with
   | nil => exact he
   | cons t ts ih =>
     unfold run
     split
     · rename_i s' hs
-      exact ih s' (ainv_step s s' t ha hs) (binv_step s s' t ha hb (crok_of_nocreate s t hn) hs)
-        (nocreate_step s s' t hn hs) (einv_step s s' t ha hb (crok_of_nocreate s t hn) he hs)
-    · exact ih s ha hb hn he
+      exact ih s' (ainv_step s s' t ha hs) (binv_step s s' t ha hb hf (crok_of_nocreate s t hn) hs)
+        (finv_step s s' t hf hs) (nocreate_step s s' t hn hs) (einv_step s s' t ha hb (crok_of_nocreate s t hn) he hs)
+    · exact ih s ha hb hf hn he
 
-theorem reach_run (s : State) (sched : List Tid) (ha : AInv s) (hb : BInv s) (hn : NoCreate s)
-    (i : Id) (o : Obj) (hr : Reach s i o) : Reach (run s sched) i o := by
+theorem reach_run (s : State) (sched : List Tid) (ha : AInv s) (hb : BInv s) (hf : FInv s) (hn : NoCreate s)
+    (i : Id) (o : Obj) (hr : Reach s i o) (hal : Held s o) : Reach (run s sched) i o := by
   induction sched generalizing s with
   | nil => exact hr
   | cons t ts ih =>
     unfold run
     split
     · rename_i s' hs
-      exact ih s' (ainv_step s s' t ha hs) (binv_step s s' t ha hb (crok_of_nocreate s t hn) hs)
-        (nocreate_step s s' t hn hs) (reach_step s s' t ha hb (crok_of_nocreate s t hn) hs i o hr)
-    · exact ih s ha hb hn hr
+      exact ih s' (ainv_step s s' t ha hs) (binv_step s s' t ha hb hf (crok_of_nocreate s t hn) hs)
+        (finv_step s s' t hf hs) (nocreate_step s s' t hn hs)
+        (reach_step s s' t ha hb (crok_of_nocreate s t hn) hs i o hr hal) (held_step s s' t hs o hal)
+    · exact ih s ha hb hf hn hr hal
 
 end SqlObjVerif.Conc
